@@ -432,6 +432,20 @@ def r1810_dotted_key(ctx):
     ctx.rule('R18.10', 'InputParameterMap.get / remove recurse with the remainder of the dotted key after its first period (sibling agreement)')
     ci = prog.cls('InputParameterMap')
     V = value_field(prog)
+    # by symbolic interpretation of the descent (E13): keys of 1, 2 and 3 elements, every element present / one absent / a non-map in the way
+    from ..keypath import check_descent
+    kp, kp_why = check_descent(prog, 'InputParameterMap', V)
+    if kp is not None:
+        for m in ('get', 'remove'):
+            ctx.examined(12)
+            ctx.ob('R18.10', f'InputParameterMap.{m}', not kp[m], sample=f'InputParameterMap.{m}: interpreted for dotted keys of 1-3 elements over 12 trees: '
+                   + ('the named parameter, or KeyError' if not kp[m] else '; '.join(f'{a}: {b}' for a, b in kp[m][:2])))
+            for (what, wrong) in kp[m][:2]:
+                ctx.finding('R18.10', f'InputParameterMap.{m}:recursion', ci, prog.method('InputParameterMap', m, inherited=False),
+                            f'{m}() with {what}: {wrong}', where=f'InputParameterMap.{m}')
+        ctx.exhaustive['R18.10 dotted keys of 1..3 elements x (present | element j absent | element j not a map)'] = True
+        return
+    ctx.note(f'R18.10: get / remove are outside the domain of the key-path interpreter ({kp_why}); syntactic rule applied')
     for m in ('get', 'remove'):
         fn = prog.method('InputParameterMap', m, inherited=False)
         k = fn.args.args[1].arg
